@@ -16,6 +16,7 @@ package main
 
 import (
 	"fmt"
+	"hash/crc32"
 	"math/rand"
 	"os"
 	"reflect"
@@ -245,6 +246,7 @@ type bdCfg struct {
 	hth           int
 	hdisk         bool
 	rle           bool
+	nomodel       bool // too large for the extracted model: implementation-only oracles
 }
 
 func newAnalysis(cfg bdCfg) *leaves.BurndownAnalysis {
@@ -278,7 +280,14 @@ func cells(tag string, cs []leaves.VerifC08Cell) Sx {
 	return T(tag, xs...)
 }
 
+// snapLens: the lengths of the tracked files of the copy bdCopySx read last (for the generators)
+var snapLens map[int]int
+
+// digestFiles: record the tracked files as a checksum (set while a case without model runs)
+var digestFiles bool
+
 func bdCopySx(a *leaves.BurndownAnalysis, rle bool) (res Sx) {
+	snapLens = map[int]int{}
 	defer func() {
 		if r := recover(); r != nil {
 			res = T("c", A("broken"))
@@ -306,11 +315,16 @@ func bdCopySx(a *leaves.BurndownAnalysis, rle bool) (res Sx) {
 	var fs []Sx
 	for _, id := range ids {
 		arr, _ := a.VerifC08Flatten(fname(id))
+		snapLens[id] = len(arr)
 		if rle {
 			fs = append(fs, rleSx(id, arr))
 		} else {
 			fs = append(fs, L(append([]Sx{I(id)}, Ints(arr).List...)...))
 		}
+	}
+	if digestFiles {
+		// the largest cases (no model): the tracked files as (fd <crc32 of the listing> <number of files>)
+		fs = []Sx{T("fd", U64(uint64(crc32.ChecksumIEEE([]byte(L(fs...).String())))), I(len(ids)))}
 	}
 	return T("c", I(a.VerifC08Used()), I(tick), I(prev), I(ma), T("mf", mfs...), T("files", fs...))
 }
@@ -361,6 +375,7 @@ func (r *bdRunner) observe(result string, target int, existing int) {
 	oldLens := r.lens
 	r.lens = make([]map[int]int, len(r.copies))
 	r.asleep = make([]bool, len(r.copies))
+	digestFiles = r.cfg.nomodel
 	for i, a := range r.copies {
 		s := bdCopySx(a, r.cfg.rle)
 		str := s.String()
@@ -383,20 +398,7 @@ func (r *bdRunner) observe(result string, target int, existing int) {
 		if r.asleep[i] {
 			continue
 		}
-		r.lens[i] = map[int]int{}
-		if f, ok := s.Field("files"); ok {
-			for _, e := range f.Args() {
-				if r.cfg.rle {
-					n := 0
-					for _, run := range e.List[1:] {
-						n += run.List[1].Int()
-					}
-					r.lens[i][e.List[0].Int()] = n
-				} else {
-					r.lens[i][e.List[0].Int()] = len(e.List) - 1
-				}
-			}
-		}
+		r.lens[i] = snapLens
 	}
 	sh := bdSharedSx(r.copies[0])
 	shs := sh.String()
@@ -706,6 +708,9 @@ func emitBd(c *Config, kind string, cfg bdCfg, ops []bdOp, r *bdRunner) {
 	if cfg.rle {
 		fs = append(fs, T("rle", B(true)))
 	}
+	if cfg.nomodel {
+		fs = append(fs, T("nomodel", B(true)))
+	}
 	c.Emit(append(fs, T("ops", os_...), T("obs", r.obs...))...)
 	cleanHibDir()
 	stopIfHung(c)
@@ -828,6 +833,9 @@ func replayBd(c *Config, cs Sx) {
 	}
 	if hf, ok := cs.Field("rle"); ok {
 		cfg.rle = hf.Args()[0].Int() != 0
+	}
+	if hf, ok := cs.Field("nomodel"); ok {
+		cfg.nomodel = hf.Args()[0].Int() != 0
 	}
 	f, _ := cs.Field("ops")
 	var ops []bdOp
@@ -1582,10 +1590,11 @@ func hibStreams(c *Config) {
 			}
 		}
 	}
-	// the threshold right above the arena (4 nodes): nothing is ever hibernated; at the arena size
-	exhaustiveBdHib(c, true, 5, true, 1, 3)
+	// the threshold at the arena size of the 3-line file (3 nodes) and right above it (the copy stays awake until a
+	// Consume has grown its arena)
+	exhaustiveBdHib(c, true, 3, true, 1, 3)
 	exhaustiveBdHib(c, true, 4, true, 1, 3)
-	for i := c.Count(700, 30000); i > 0; i-- {
+	for i := c.Count(700, 10000); i > 0; i-- {
 		randomBdHib(c)
 	}
 }
